@@ -71,11 +71,11 @@ CORE = ['wl_registry', 'wl_callback', 'wl_compositor', 'wl_shm', 'wl_shm_pool', 
         'wl_pointer', 'wl_keyboard', 'wl_touch', 'wl_output', 'wl_region', 'wl_subcompositor', 'xdg_wm_base', 'xdg_surface', 'xdg_toplevel',
         'xdg_popup', 'xdg_positioner', 'wl_data_device_manager', 'wl_data_device', 'wl_data_source', 'zwlr_layer_shell_v1',
         'zwlr_layer_surface_v1', 'zxdg_decoration_manager_v1', 'wp_viewporter', 'zwp_linux_dmabuf_v1']
-UNKNOWN_IFACES = ['my_unknown_iface', 'zz_custom_v9', 'new', 'x']
+UNKNOWN_IFACES = ['my_unknown_iface', 'zz_custom_v9', 'new', 'x', 'ACME_panel', 'Foo']      # (wayland-scanner accepts any C identifier)
 STRS = ['', 'a', 'wl_seat', 'wl_shm', 'hello world', 'a, b', 'x) y', '(p', '[q]', 'wl_surface@3', 'nil', '12', 'new id wl_a@4', 'ünï', "it's", 'fd 3',
         'array', ' lead', 'trail ', 'org.gnome.gedit', 'foo.bar.Baz', 'title: x', '}', '{', '1.5', '[1.0] a@1.b(',
-        '[5.000]  -> wl_surface@9.commit()', '[   7.250]  -> wl_x#3.y(1)']      # a whole sent-looking message with its own time inside a string
-FREE_NAMES = ['ping', 'set_thing', 'done', 'new', 'destroyed', 'configure', 'commit']
+        '[5.000]  -> wl_surface@9.commit()', '[   7.250]  -> wl_x#3.y(1)', '2 discarded drafts', 'x discarded y']      # a whole sent-looking message with its own time inside a string
+FREE_NAMES = ['ping', 'set_thing', 'done', 'new', 'destroyed', 'configure', 'commit', 'Frob', 'setX']
 I32 = [0, 1, -1, 7, 2, 3, 4, 8, 16, 272, 273, 274, -2147483648, 2147483647]
 U32 = [0, 1, 2, 3, 4, 5, 7, 8, 15, 16, 255, 4294967295]
 FIX = [0, 256, -256, 128, -128, 1, -1, 2147483647, -2147483648, 384, 25600]
@@ -577,7 +577,7 @@ class ConnGen:
         if m is not None:
             for a in m['args']:
                 if a[0] == 'array':
-                    a[1] = d.choice([4, 8, 12, 16, 24])
+                    a[1] = d.choice([0, 0, 4, 8, 12, 16, 24])
         return m
 
     def step_deep_reuse(self, d):
